@@ -125,20 +125,18 @@ func (mediaType *MediaType) Validate(ctx context.Context, opts ...ValidationOpti
 	if mediaType.Example != nil && mediaType.Examples != nil {
 		return errors.New("example and examples are mutually exclusive")
 	}
-	if schema := mediaType.Schema; schema == nil {
-		if vo := getValidationOptions(ctx); !vo.examplesValidationDisabled {
-			names := make([]string, 0, len(mediaType.Examples))
-			for name := range mediaType.Examples {
-				names = append(names, name)
-			}
-			sort.Strings(names)
-			for _, k := range names {
-				if err := mediaType.Examples[k].Validate(ctx); err != nil {
-					return fmt.Errorf("example %s: %w", k, err)
-				}
-			}
+	// (nor on the option that switches off the comparison of examples with the schema)
+	exampleNames := make([]string, 0, len(mediaType.Examples))
+	for name := range mediaType.Examples {
+		exampleNames = append(exampleNames, name)
+	}
+	sort.Strings(exampleNames)
+	for _, k := range exampleNames {
+		if err := mediaType.Examples[k].Validate(ctx); err != nil {
+			return fmt.Errorf("example %s: %w", k, err)
 		}
-	} else {
+	}
+	if schema := mediaType.Schema; schema != nil {
 		if err := schema.Validate(ctx); err != nil {
 			return err
 		}
@@ -158,9 +156,6 @@ func (mediaType *MediaType) Validate(ctx context.Context, opts ...ValidationOpti
 				sort.Strings(names)
 				for _, k := range names {
 					v := examples[k]
-					if err := v.Validate(ctx); err != nil {
-						return fmt.Errorf("example %s: %w", k, err)
-					}
 					if v.Value.Value == nil && v.Value.ExternalValue != "" {
 						continue // the value lives elsewhere: there is nothing here to check against the schema
 					}
